@@ -163,9 +163,9 @@ __CPROVER_requires(vf_exc == 0 && __CPROVER_r_ok(self, sizeof(*self)) && self->_
 __CPROVER_assigns(f->pos, f->len, f->fail, f->eof, vf_rec_end, vf_dsp_seen, __CPROVER_object_whole(f->buf))
 /*@ C03 : Parameters_write.data-start-is-1-based-block-of-data */
 __CPROVER_ensures(B(vf_dsp_seen) == (unsigned)((f->pos / 512 + 1) & 0xFF))
-/*@ C03 C01 C14 : Parameters_write.padding-is-zero */
+/*@ C03 C01 C04 C14 : Parameters_write.padding-is-zero */
 __CPROVER_ensures((vf_gc >= (size_t)vf_rec_end && vf_gc < (size_t)f->pos) ==> f->buf[vf_gc] == 0)
-/*@ C03 C01 : Parameters_write.at-least-one-padding-byte */ __CPROVER_ensures(f->pos > vf_rec_end)
+/*@ C03 C01 C04 : Parameters_write.at-least-one-padding-byte */ __CPROVER_ensures(f->pos > vf_rec_end)
 /*@ C03 : Parameters_write.less-than-one-block-of-padding-plus-terminator */ __CPROVER_ensures(f->pos - vf_rec_end <= 512);
 
 void h_Z_Parameters_write(void)
